@@ -213,6 +213,80 @@ Section MachineProofs.
     intros g sch i H. destruct (solo_equals_interleaved g sch i) as (A & B & _).
     rewrite H in A, B. simpl in A, B. auto.
   Qed.
+
+  (* ---- thread generations: threads that ran (and finished) before thread i made its first step *)
+  Lemma count_app : forall i s1 s2, count i (s1 ++ s2) = (count i s1 + count i s2)%nat.
+  Proof. intros. unfold count. rewrite filter_app, app_length. auto. Qed.
+
+  (* whatever the threads of earlier generations did — including the entries they left behind in the
+     shared dict when they exited — thread i, started afterwards, runs exactly as alone from the start *)
+  Theorem later_generation_unaffected : forall (g : G) dead sch i, count i dead = O ->
+    g_loc (run (dead ++ sch) g) i = g_loc (solo i (count i sch) g) i /\
+    owned i (g_dedup (run (dead ++ sch) g)) = owned i (g_dedup (solo i (count i sch) g)).
+  Proof.
+    intros g dead sch i H.
+    destruct (solo_equals_interleaved g (dead ++ sch) i) as (A & B & _).
+    rewrite count_app, H in A, B. simpl in A, B. auto.
+  Qed.
+
+  (* ... and the dead threads' entries are still there, untouched by i (the dict keeps them) *)
+  Theorem entries_of_dead_threads_stay : forall (g : G) sch j, count j sch = O ->
+    owned j (g_dedup (run sch g)) = owned j (g_dedup g).
+  Proof. intros g sch j H. destruct (untouched g sch j H) as (_ & B). exact B. Qed.
+
+  (* ---- the thread component of the key: any INJECTIVE function of the thread will do *)
+  Section Ident.
+    Variable ident : tid -> nat.
+    Notation stepb := (step_by next_request advance ident).
+    Notation runb := (run_by next_request advance ident).
+
+    Lemma step_by_unfold : forall i (g : G),
+      stepb i g = mkG (g_ro g)
+                     (upd i (advance (g_ro g) (g_loc g i) (snd (serve (ident i) (next_request (g_ro g) (g_loc g i)) (g_dedup g)))) (g_loc g))
+                     (fst (serve (ident i) (next_request (g_ro g) (g_loc g i)) (g_dedup g))).
+    Proof. intros. unfold Threads.step_by. destruct (serve _ _ _). reflexivity. Qed.
+
+    Definition simb (i : tid) (g1 g2 : G) : Prop :=
+      g_ro g1 = g_ro g2 /\ g_loc g1 i = g_loc g2 i /\ owned (ident i) (g_dedup g1) = owned (ident i) (g_dedup g2).
+
+    Hypothesis ident_injective : forall a b, ident a = ident b -> a = b.
+
+    Lemma simb_step_same : forall i g1 g2, simb i g1 g2 -> simb i (stepb i g1) (stepb i g2).
+    Proof.
+      intros i g1 g2 (Hro & Hl & Hd). rewrite !step_by_unfold. unfold simb. simpl.
+      rewrite Hro, Hl.
+      destruct (serve_owned (ident i) (next_request (g_ro g2) (g_loc g2 i)) _ _ Hd) as [Hr Ho].
+      repeat split; auto.
+      unfold upd. rewrite Nat.eqb_refl. rewrite Hr. auto.
+    Qed.
+
+    Lemma simb_step_other : forall i j g1 g2, j <> i -> simb i g1 g2 -> simb i (stepb j g1) g2.
+    Proof.
+      intros i j g1 g2 Hj (Hro & Hl & Hd). rewrite step_by_unfold. unfold simb. simpl.
+      repeat split; auto.
+      - unfold upd. apply Nat.eqb_neq in Hj. rewrite Nat.eqb_sym in Hj. rewrite Hj. auto.
+      - rewrite serve_other; auto.
+    Qed.
+
+    Lemma runb_sim : forall i sch g1 g2, simb i g1 g2 -> simb i (runb sch g1) (runb (filter (Nat.eqb i) sch) g2).
+    Proof.
+      intros i sch. induction sch as [|j r IH]; intros g1 g2 H; simpl; auto.
+      destruct (Nat.eqb i j) eqn:E.
+      - apply Nat.eqb_eq in E. subst j. simpl. apply IH. apply simb_step_same. auto.
+      - apply IH. apply simb_step_other; auto. apply Nat.eqb_neq in E. auto.
+    Qed.
+
+    Theorem solo_equals_interleaved_by_injective_ident : forall (g : G) sch i,
+      g_loc (runb sch g) i = g_loc (runb (repeat i (count i sch)) g) i /\
+      owned (ident i) (g_dedup (runb sch g)) = owned (ident i) (g_dedup (runb (repeat i (count i sch)) g)).
+    Proof.
+      intros g sch i. rewrite <- filter_repeat.
+      destruct (runb_sim i sch g g) as (_ & H2 & H3); [unfold simb; auto|]. auto.
+    Qed.
+  End Ident.
+
+  Lemma run_by_id : forall sch (g : G), run_by next_request advance (fun i => i) sch g = run sch g.
+  Proof. induction sch as [|j r IH]; intros g; simpl; auto. Qed.
 End MachineProofs.
 
 (* ---------------------------------------------------------------- the asynq instance *)
@@ -254,6 +328,42 @@ Theorem without_thread_in_key_threads_interfere :
   /\ g_loc (run w_next w_adv [1%nat; 0%nat] w_init) 0%nat = g_loc (run w_next w_adv [0%nat] w_init) 0%nat.
 Proof. split; [ vm_compute; discriminate | reflexivity ]. Qed.
 
+(* ... and it has to be unique over the whole life of the process, not only among the threads alive at
+   the same time: thread 1 registers an entry and exits; thread 2 is started afterwards and the OS gives it
+   the ident of thread 1.  With that number in the key thread 2 is handed thread 1's entry; with the
+   thread itself in the key it is not. *)
+Definition reused_ident (i : tid) : nat := if Nat.eqb i 2 then 1%nat else i.
+
+Theorem reused_ident_in_key_leaks_across_lifetimes :
+  g_loc (run_by w_next w_adv reused_ident [1%nat; 2%nat] w_init) 2%nat
+    <> g_loc (run_by w_next w_adv reused_ident [2%nat] w_init) 2%nat
+  /\ g_loc (run w_next w_adv [1%nat; 2%nat] w_init) 2%nat = g_loc (run w_next w_adv [2%nat] w_init) 2%nat
+  /\ (forall a b, (a < 2)%nat -> (b < 2)%nat -> reused_ident a = reused_ident b -> a = b).
+Proof.
+  split; [ vm_compute; discriminate | split; [ reflexivity | ] ].
+  intros a b Ha Hb. unfold reused_ident.
+  destruct (Nat.eqb a 2) eqn:Ea; [ apply Nat.eqb_eq in Ea; lia | ].
+  destruct (Nat.eqb b 2) eqn:Eb; [ apply Nat.eqb_eq in Eb; lia | ]. auto.
+Qed.
+
+(* the asynq instance with thread generations: a thread started after `dead` has run (threads that
+   finished, whatever un-awaited deduplicated tasks they left registered) produces the traces it produces
+   alone from the initial state *)
+Theorem traces_after_dead_threads : forall perf progs dead sch i, count i dead = O ->
+  l_trace (g_loc (trun (dead ++ sch) (init_global perf progs)) i) =
+  l_trace (g_loc (trun (repeat i (count i sch)) (init_global perf progs)) i).
+Proof.
+  intros. unfold trun.
+  destruct (later_generation_unaffected bool local next_request advance (init_global perf progs) dead sch i H) as (A & _).
+  unfold solo in A. rewrite A. auto.
+Qed.
+
+(* the generation-wise schedules the correspondence uses are schedules *)
+Theorem generation_traces : forall perf progs sizes schs i,
+  l_trace (g_loc (trun (gen_schedule progs 0 sizes schs) (init_global perf progs)) i) =
+  l_trace (g_loc (trun (repeat i (count i (gen_schedule progs 0 sizes schs))) (init_global perf progs)) i).
+Proof. intros. apply traces_solo_equals_interleaved. Qed.
+
 (* hypotheses are satisfiable / the instance computes: two threads calling the same deduplicated
    function with the same arguments, any of these interleavings, same traces as alone *)
 Example two_threads_same_dedup_call :
@@ -263,3 +373,15 @@ Example two_threads_same_dedup_call :
   = l_trace (g_loc (trun (repeat 0%nat 10) g) 0%nat)
   /\ length (l_trace (g_loc (trun (repeat 0%nat 10) g) 0%nat)) = 3%nat.
 Proof. vm_compute. split; reflexivity. Qed.
+
+(* generations: thread 0 leaves two un-awaited deduplicated calls behind (one made inside a task, one at
+   top level) and exits; thread 1, started afterwards, makes the same calls and computes its own *)
+Example abandoned_calls_then_a_new_thread :
+  let p0 := [ORun (Node 0 CNone [Spec 1 3; Leaf 1 CNone 0 2]); OSpec 0 0] in
+  let p1 := [ORun (Node 0 CNone [DLeaf 1 3; DLeaf 0 0]); OProf] in
+  let g := init_global true [p0; p1] in
+  let sch := gen_schedule [p0; p1] 0 [1; 1]%nat [[]; []] in
+  l_trace (g_loc (trun sch g) 1%nat) = l_trace (g_loc (trun (repeat 1%nat (count 1%nat sch)) g) 1%nat)
+  /\ length (g_dedup (trun sch g)) = 2%nat                  (* thread 0's entries are still registered *)
+  /\ length (l_trace (g_loc (trun sch g) 1%nat)) = 3%nat.
+Proof. vm_compute. repeat split; reflexivity. Qed.
